@@ -35,6 +35,8 @@ class NetNode:
         self.exc = None
         self.calls = 0
         self.busy = False  # inside an outermost driver call
+        self.lazy_ns = 0  # application reads its queue at most this often
+        self.last_drain = 0
         self.sys_returns = []
 
     @property
@@ -133,8 +135,12 @@ class Net:
                 for cb in self.on_return:
                     cb(nn, opname, outcome)
 
-    def drain(self, nn):
+    def drain(self, nn, force=False):
         obj = nn.obj
+        if nn.lazy_ns and not force:
+            if nn.wnode.t - nn.last_drain < nn.lazy_ns:
+                return
+        nn.last_drain = nn.wnode.t
         while obj.available():
             f = obj.read()
             nn.applog.append({"t": nn.wnode.t, "from": f.header.from_node, "to": f.header.to_node,
@@ -252,6 +258,15 @@ class Net:
         for nn in self.nodes:
             self.world.spawn(nn.wnode, self.app, nn, daemon=True, start_at=nn.wnode.t)
         ok = self.world.run(wall_timeout=wall_timeout)
+        if ok:
+            for nn in self.nodes:  # what is still queued when the scenario ends
+                self.world.bind(nn.wnode)
+                try:
+                    self.drain(nn, force=True)
+                except BaseException:  # noqa: BLE001
+                    pass
+                W.World.unbind()
+                nn.wnode.done = True
         for nn in self.nodes:
             if nn.wnode.exc is not None and nn.exc is None:
                 nn.exc = nn.wnode.exc
